@@ -115,7 +115,13 @@ fn check_graph(name: &str, g: &Graph, cfg_base: &ExploreCfg) -> Acc {
                 Some(b) => b,
                 None => continue,
             };
-            for enc in encoder_menu(kind, sem, false) {
+            let mut menu = encoder_menu(kind, sem, false);
+            if kind == QKind::DS && sem == Sem::PR {
+                // library-level configuration outside the CLI menu: the skeptical preferred search on
+                // the admissibility encoding (base = admissible sets), sound and covered by the bound
+                menu.push(Enc::AuxAdm);
+            }
+            for enc in menu {
                 let eff_enc = if enc == Enc::LibDefault { Enc::AuxCO } else { enc };
                 let bound = bound_for(g, bk, eff_enc);
                 let avars = if enc == Enc::LibDefault { vec![] } else { arg_vars(enc, g.n) };
@@ -212,6 +218,13 @@ pub fn run(tier: Tier) -> i32 {
         s_family().into_iter().filter(|(_, g)| g.is_connected() && g.n <= 9).collect(),
         ExploreCfg { dev_bound: Some(d), ..full.clone() },
     ));
+    if !thorough {
+        plans.push((
+            "connected 4-argument frameworks, one per isomorphism class with <= 5 attacks, D<=1".into(),
+            named(crate::universe::iso_representatives_sparse(4, 5).into_iter().filter(|g| g.is_connected()).collect(), "U4iso"),
+            ExploreCfg { dev_bound: Some(1), ..full.clone() },
+        ));
+    }
     if thorough {
         plans.push((
             "connected U(4), D<=1".into(),
